@@ -39,10 +39,10 @@ def gen_case(rng, tier, idx):
     if idx % 3 == 2:
         return {"kind": "diff", "aw": rng.choice([4, 5, 6, 7, 8, 9]), "dw": rng.choice([4, 8, 8, 16]),
                 "depth": rng.randint(1, 3), "cycles": 300 if tier == "quick" else 800}
-    aw = rng.choice([2, 3, 4, 5, 6, 8, 10])
-    return {"kind": "bare", "aw": aw, "dw": rng.choice([1, 4, 8, 8, 16, 32]),
+    aw = rng.choice([2, 3, 4, 5, 6, 8, 10, 12, 16])
+    return {"kind": "bare", "aw": aw, "dw": rng.choice([1, 4, 8, 8, 16, 32, 64, 65]),
             "al": rng.choice([0, 0, 0, 1, 2, 3]) if aw > 3 else 0,
-            "nsubs": rng.choice([0, 1, 2, 3, 4, 5, 6, 17, 20]) if aw >= 6 else rng.choice([0, 1, 2, 3, 4, 5, 6]),
+            "nsubs": rng.choice([0, 1, 2, 3, 4, 5, 6, 17, 20, 33, 40]) if aw >= 8 else rng.choice([0, 1, 2, 3, 4, 5, 6]),
             "query_between_adds": rng.random() < 0.4, "cycles": 250 if tier == "quick" else 700}
 
 
